@@ -6,6 +6,8 @@ import CoercionModel.Generated.F10
 import CoercionModel.Model.SkeletonsRest
 import CoercionModel.Generated.F14
 import CoercionModel.Generated.T10
+import CoercionModel.Model.SkeletonsGlue
+import CoercionModel.Generated.F15
 set_option linter.unusedSimpArgs false
 /-
   C12 — A plan executes at most once; repeated or racing Start is rejected safely.
@@ -200,5 +202,9 @@ theorem translated_guard_is_startable (s : S) (maxSubmit now submit : Nat)
 
 example : Generated.T10.validateStateOk .running 5 0 = false ∧ Generated.T10.staleSubmission 100 1000 900 = false ∧
     Generated.T10.staleSubmission 100 1001 900 = true := by decide
+
+/-- the glue code this property's campaigns rest on (group `apiGlue` of Model/SkeletonsGlue: code no model mirrors) still has
+    the shape it was read with (regenerated from /repo on every run) -/
+theorem facts_glue_skeleton : Generated.F15.apiGlue = SkeletonsGlue.apiGlue := by rfl
 
 end Coercion.C12
